@@ -40,6 +40,10 @@ pub enum Step {
     /// spawn (all streams inherited) while the parent's own fds in the mask
     /// (bit 0..2 = fd 0..2) are closed, as in a daemonized parent
     SpawnClosedStd(u8),
+    /// a launch that fails in exec with ETXTBSY (the program file is open for
+    /// writing) while the earlier Popens are alive: the forked child holds a copy
+    /// of every descriptor of the parent until it exits, so it must not linger
+    SpawnBusyText,
 }
 
 #[derive(Clone, Debug, Serialize, Deserialize)]
@@ -269,6 +273,24 @@ fn child_argv(stdin: SK) -> Vec<std::ffi::OsString> {
     }
 }
 
+/// A copy of the helper that this process keeps open for writing: exec of it
+/// fails with ETXTBSY.
+fn busy_text(ctx: &Ctx) -> std::path::PathBuf {
+    thread_local! {
+        static BUSY: std::cell::RefCell<Option<(std::path::PathBuf, std::fs::File)>> = const { std::cell::RefCell::new(None) };
+    }
+    BUSY.with(|b| {
+        let mut b = b.borrow_mut();
+        if b.is_none() {
+            let p = ctx.scratch.join(format!("busy-text-{}", std::process::id()));
+            std::fs::copy(vchild_path(), &p).expect("copy helper");
+            let f = std::fs::OpenOptions::new().write(true).open(&p).expect("open helper copy for writing");
+            *b = Some((p, f));
+        }
+        b.as_ref().unwrap().0.clone()
+    })
+}
+
 fn refresh_registry(w: &mut World, from: usize) -> usize {
     let snap = ip::pipes_snapshot();
     for p in &snap[from.min(snap.len())..] {
@@ -278,7 +300,6 @@ fn refresh_registry(w: &mut World, from: usize) -> usize {
 }
 
 pub fn check_history(ctx: &Ctx, case: &LeakCase, rep: &mut CaseReport) -> CaseResult {
-    let _ = ctx;
     reap_all();
     let fail = |kind: &str, context: &str, msg: String| Err(Fail::new(format!("C08:{}:{}", context, kind), format!("{}\ncase={:?}", msg, case)));
     ip::pipes_reset();
@@ -442,6 +463,26 @@ pub fn check_history(ctx: &Ctx, case: &LeakCase, rep: &mut CaseReport) -> CaseRe
                         result = fail("spawn-error", context, e.to_string());
                         break 'steps;
                     }
+                }
+            }
+            Step::SpawnBusyText => {
+                context = "busy-text";
+                let prog = busy_text(ctx);
+                ip::shared_reset();
+                let res = Popen::create(&[prog.into_os_string()], PopenConfig::default());
+                let sleeps = ip::shared().child_sleeps.load(SeqCst);
+                match res {
+                    Ok(mut p) => {
+                        let _ = p.kill();
+                        let _ = p.wait();
+                        result = fail("harness", context, "a program file open for writing was executed".into());
+                        break 'steps;
+                    }
+                    Err(_) => {}
+                }
+                if sleeps > 0 {
+                    result = fail("pre-exec-child-sleeps", context, format!("the forked child of a failing launch called nanosleep {} time(s) before giving up; it holds a copy of every pipe end of the parent (other children's included) all that time, so their end-of-file is held back", sleeps));
+                    break 'steps;
                 }
             }
             Step::SpawnToUserPipe(rc) => {
@@ -912,6 +953,7 @@ pub fn history_strategy() -> impl Strategy<Value = LeakCase> {
         1 => (2u8..7, any::<bool>()).prop_map(|(n, a)| Step::PipelineStream(n, a)),
         2 => any::<bool>().prop_map(Step::SpawnToUserPipe),
         2 => (1u8..8).prop_map(Step::SpawnClosedStd),
+        1 => Just(Step::SpawnBusyText),
     ];
     prop::collection::vec(step, 1..13).prop_map(|steps| LeakCase { steps })
 }
